@@ -85,7 +85,7 @@ def run(chk):
     b = core.standard_build(chk)
     model = core.Model() if b.modelrun_ok else None
     full = chk.tier == 'thorough' or bool(b.drift) or not b.proof_ok
-    n = 500 if full else 50
+    n = core.budget(chk, full, 60, 500)
     chk.rule = ('generated documents (a clef in force for every note, accidentals up to two sharps / flats so that the agnostic '
                 'encodings are defined) x 3 category selections that keep durations or pitches x the six encodings; '
                 'non-trivial = distinct (text, options)')
